@@ -89,7 +89,7 @@ CHECKS = {
         engine="index", design_ref="DESIGN.md §6 C17",
         technique="Lean 4 theorems over all index types and values (finite case split on widths + omega) + differential execution + direct oracle",
         text=("Proof: C17_checked (the check accepts exactly 0 <= v < n for every non-bool integer index type and every value, no aliasing after truncation), "
-              "C17_designates (element v, wholly inside the array), C17_aborts, C17_multi (row-major designation for multi-dimensional arrays). Tied to the code by ~33k ops: "
+              "C17_designates (element v, wholly inside the array), C17_aborts, C17_multi (row-major designation for multi-dimensional arrays), C17_volatile_index (an index stored in sandbox memory and rewritten by the sandbox at any moment: abort or an element of the array, for every adversary; driven through the C09 interposer). Tied to the code by ~33k ops: "
               "application- and sandbox-memory arrays, 3 element types, lengths 1..16, 14 index types, plain/tainted/tainted_volatile indices, boundary and aliasing values, 2-D/3-D shapes, canaries."),
         note=NOTE + "bool index types do not compile and are excluded."),
     "C15": dict(
@@ -156,7 +156,7 @@ CHECKS = {
         engine="ops", design_ref="DESIGN.md §6 C16",
         technique="Lean 4 theorems parametric in the plain semantics (the wiring unwrap/apply/wrap/write-back is proved for EVERY PlainSem) + source operator tables as proof obligations + differential execution vs the plain C++ expression",
         text=("Proof: C16_value, C16_compare (value = plain comparison; hint iff sandbox memory is involved; never a plain bool), C16_logical / C16_cppLog (&& and ||: plain value, always tainted<bool>), C16_unary, C16_update_tainted, C16_update_tvol (stored value = plain result or "
-              "abort, never a different value), C16_incdec_return, for every plain semantics and every wrapper combination; ops_tables_match ties the operator macro instantiation lists and the bodies of "
+              "abort, never a different value), C16_incdec_return, C16_float_incdec / C16_float_rederive_differs / C16_float_exact / C16_float_comm / C16_float_result_type (floating-point operands: engine `fops`, exact dyadic arithmetic with one rounding), for every plain semantics and every wrapper combination; ops_tables_match ties the operator macro instantiation lists and the bodies of "
               "Pre/PostIncDecOps/CompoundAssignmentOp to rlbox.hpp on every run. Tied to the code by 16 operators x 8 wrapper combinations x 121 type pairs, all 8-bit x 8-bit operand pairs by block hash "
               "(8.4M evaluations in quick), compound assignment and ++/--, with result types asserted at compile time and values compared with the plain expression and with an independent Python rendering."),
         note=NOTE + "The executable C++ integer rules (cppSem, LP64) are used only by the correspondence check; floating point is not exercised."),
@@ -175,14 +175,14 @@ CHECKS = {
         technique="Lean 4 mutual structural induction over call trees with faults (stack-automaton acceptance + counting) + differential execution with logging transition hooks",
         text=("Proof: C19_bracketed (for every tree of nested invocations and callbacks, any depth and width, with a fault at any position, the notification sequence is accepted by the bracket "
               "automaton: in..out for invocations, out..in for callbacks, payload identities matching), C19_one_record_per_crossing (exit-side events = entry-side events, also on exceptional exit), "
-              "C19_scope_exit_once. Tied to the code by random trees with injected aborts and a fixed tree with a fault at every position, hooks logging (kind, name/key, per-sandbox state, compared "
+              "C19_scope_exit_once, C19_single_hook / C19_single_hook_counts (a client that defines only one of the two hooks gets exactly that hook's notifications; builds noop_in / noop_out). Tied to the code by random trees with injected aborts and a fixed tree with a fault at every position, hooks logging (kind, name/key, per-sandbox state, compared "
               "with the sandbox's current state at delivery) and timing records, on vsbx and noop."),
         note=NOTE + "Timing values are not compared."),
     "C11": dict(
         engine="invoke", design_ref="DESIGN.md §6 C11",
         technique="Lean 4 theorems on the marshalling model (list induction, reuse of the C06/C04 theorems) + cache invariants by case analysis + differential execution of a signature family",
         text=("Proof: C11_args (if the call goes through the guest observed every argument faithfully, position by position: integers by C06, pointers by C04), C11_abort_before_call (an unrepresentable "
-              "argument aborts with zero guest executions), C11_once, C11_result, C11_cache_isolated (a lookup on one instance never touches another's cache), C11_instance under CacheInv with "
+              "argument aborts with zero guest executions), C11_once, C11_result, C11_cache_isolated (a lookup on one instance never touches another's cache), C11_resolve_own_library / C11_resolve_ignores_others (a name resolves only in the instance's own library, else aborts, whatever other libraries or the process export; scenario `dymiss`), C11_instance under CacheInv with "
               "lookup/create/destroy preservation lemmas (the function that runs is the named one in the instance's own library), C11_fn_address (independent of the invocation history). "
               "Tied to the code by 11 signatures (0..12 parameters, all kinds incl. callback and by-value struct) x 4 wrapper forms x 3 live instances with recording guest functions, and by-name "
               "lookups/addresses on instances bound to two libraries exporting the same names. The shared-cache defect (F12) and the stale cache (F6a) were found by C14/C11 ops and repaired."),
